@@ -99,6 +99,8 @@ func lv(kv ...string) []Leaf {
 
 const (
 	cc = "config."
+
+	multiLine = "query {\n  # the fields wanted\n  me\n}\n# end"
 )
 
 // endpointOptions lists the documented options of the Endpoint type
@@ -240,6 +242,7 @@ func catalogue() []mechType {
 				s(genericAuthn, "forward_cookies", cc+"forward_cookies[0]", "sess"),
 				s(genericAuthn, "payload", cc+"payload", "foo"),
 				s(genericAuthn, "payload-empty", cc+"payload", `""`),
+				s(genericAuthn, "payload-of-several-lines", cc+"payload", multiLine),
 				s("subject", "attributes", cc+"subject.attributes", "attrs"),
 				s(genericAuthn, "cache_ttl", cc+"cache_ttl", "5m"),
 				s(genericAuthn, "allow_fallback_on_error", cc+"allow_fallback_on_error", "true"),
@@ -306,6 +309,8 @@ func catalogue() []mechType {
 				s(ctxGeneric, "payload", cc+"payload", "foo"),
 				// present and empty: no payload (a template of nothing)
 				s(ctxGeneric, "payload-empty", cc+"payload", `""`),
+				// several lines, some of which start with the character that starts a comment elsewhere in a YAML file
+				s(ctxGeneric, "payload-of-several-lines", cc+"payload", multiLine),
 				s(ctxGeneric, "values-empty-entry", cc+"values.foo", `""`),
 				s(ctxGeneric, "cache_ttl", cc+"cache_ttl", "5m"),
 				s(ctxGeneric, "continue_pipeline_on_error", cc+"continue_pipeline_on_error", "true"),
@@ -752,6 +757,22 @@ func schemaUnits() []schemaUnit {
 			units = append(units, schemaUnit{base: true, first: vi == 0, typeKey: mt.Kind + "/" + mt.Type, key: key, cs: &SchemaCase{
 				Kind: "schema", Subject: subject, What: fmt.Sprintf("%s type %s (%s configuration)", mt.KindSig, mt.Type, v.Name), Leaves: leaves,
 			}})
+
+			// the name of the type written the way the loader's registries do not know it: usable from neither source
+			if vi == 0 {
+				for _, nt := range []struct{ how, typ string }{
+					{"capitalised", strings.ToUpper(mt.Type[:1]) + mt.Type[1:]}, {"in-upper-case", strings.ToUpper(mt.Type)},
+					{"with-a-leading-blank", `" ` + mt.Type + `"`},
+				} {
+					nl, _ := elementLeaves(mt.Kind, nt.typ, v.Leaves)
+
+					units = append(units, schemaUnit{base: true, typeKey: "notation/" + mt.Kind + "/" + mt.Type + "/" + nt.how,
+						key: "notation/" + key + "/" + nt.how, cs: &SchemaCase{
+							Kind: "schema", Subject: mt.KindSig + "-type-name-" + nt.how,
+							What:   fmt.Sprintf("%s type %s written %s (%s)", mt.KindSig, mt.Type, nt.how, nt.typ), Leaves: nl,
+						}})
+				}
+			}
 
 			for _, o := range v.Options {
 				ol, _ := elementLeaves(mt.Kind, mt.Type, v.Leaves, o.Leaves)
